@@ -12,7 +12,7 @@ import (
 )
 
 func init() {
-	register("C01", "Structural clauses behind sync convergence, decided on every path of the stat constructor and the disk writer: every exported field of types.Stat (set taken from go/types) is written by the constructor from its truthful lstat-based source; rewriteMetadata applies owner, mode (symlinks excepted), times and xattrs from the stat on every success path, owner before mode and times last; metadata is applied (checked) before an entry becomes visible by rename and after every creation; creation arguments come from the stat; the mtime is re-applied after asynchronous content; directory mtimes are recorded from the stat and fixed after all writers finished; merge mode never produces deletes; no write error is dropped or survived outside a reasoned table. Does not decide equality of the two trees, file bytes or hard-link groups at run time.", runC01)
+	register("C01", "Structural clauses behind sync convergence, decided on every path of the stat constructor and the disk writer: every exported field of types.Stat (set taken from go/types) is written by the constructor from its truthful lstat-based source; rewriteMetadata applies owner, mode (symlinks excepted), times and xattrs from the stat on every success path, owner before mode and times last; metadata is applied (checked) before an entry becomes visible by rename and after every creation; creation arguments come from the stat; the mtime is re-applied after asynchronous content; directory mtimes are recorded from the stat and fixed after all writers finished; merge mode never produces deletes; no write error is dropped or survived outside a reasoned table. The diff loop cannot end while either walk is still open. Does not decide equality of the two trees, file bytes or hard-link groups at run time.", runC01)
 }
 
 func runC01(c *Ctx) {
